@@ -461,7 +461,7 @@ func (e *Engine) solveAll(workdir string, timeout time.Duration, par int) {
 			undecided = append(undecided, o)
 		}
 	}
-	if n := len(undecided); n > 0 && n <= 16 {
+	if n := len(undecided); n > 0 && n <= 16 && os.Getenv("VERIF_NO_RETRY") == "" {
 		sem2 := make(chan struct{}, 4)
 		var wg2 sync.WaitGroup
 		for _, o := range undecided {
